@@ -213,9 +213,9 @@ func autoUpgradeSMPre(irModule *ir.Module, ep *ir.EntryPoint, smMinor uint32) ui
 // standalone stay as separate LLVM functions.
 func prepareModule(irModule *ir.Module) (*ir.Module, error) {
 	if len(irModule.Functions) == 0 {
-		return ir.CloneModuleForOverrides(irModule), nil
+		return cloneGlobals(ir.CloneModuleForOverrides(irModule)), nil
 	}
-	irModule = ir.CloneModuleForOverrides(irModule)
+	irModule = cloneGlobals(ir.CloneModuleForOverrides(irModule))
 	shouldInline := func(callee *ir.Function) bool {
 		if helperNeedsInlining(irModule, callee) {
 			return true
@@ -241,6 +241,14 @@ func prepareModule(irModule *ir.Module) (*ir.Module, error) {
 		return nil, fmt.Errorf("dxil: inline user functions: %w", err)
 	}
 	return irModule, nil
+}
+
+// cloneGlobals gives the working copy its own GlobalVariables slice: the emitter assigns
+// synthetic bindings to push-constant / immediate-data globals, which must not be written
+// into the caller's module (CloneModuleForOverrides shares that slice).
+func cloneGlobals(m *ir.Module) *ir.Module {
+	m.GlobalVariables = append([]ir.GlobalVariable(nil), m.GlobalVariables...)
+	return m
 }
 
 // Compile translates a naga IR module to DXIL bytecode wrapped in
